@@ -166,6 +166,63 @@ def n2eAngles (L : Libm α) (n : V3 α) : α × α :=
   (theta, psi)
 end n2e
 
+/-! ### row-level formulas regenerated from the source (`Gen.C06.E`) and their evaluator
+
+The translator turns the arithmetic the code applies to one row of a batch (symbolically executed, temporaries inlined)
+into a term of `Gen.C06.E`; the driver evaluates THAT term (`evalE`) at `Float`, the theorems of `Props/C06.lean` prove that
+the regenerated term evaluates to the formula the metric theorems are about. The expression is an ARGUMENT of every definition
+here (no definition of this file reads a value of `Gen/C06.lean`; see `Lemmas/C06_Export.lean`). -/
+section expr
+open Gen.C06 (E)
+variable [Add α] [Sub α] [Mul α] [Div α] [Neg α] [Max α] [Min α] [LT α] [DecidableLT α] [BEq α]
+
+/-- value of a regenerated expression: `nat` embeds the literals (`Float.ofNat` / `Nat.cast`), `env` gives the row-level
+variables (`dot` = `np.sum(q1*q2, axis=1)`; `ux, uy, uz` = the normalised normal) -/
+def evalE (L : Libm α) (nat : Nat → α) (env : String → α) : E → α
+  | .lit n d => if d = 1 then nat n else nat n / nat d
+  | .var s => env s
+  | .pi => L.pi
+  | .neg a => -(evalE L nat env a)
+  | .add a b => evalE L nat env a + evalE L nat env b
+  | .sub a b => evalE L nat env a - evalE L nat env b
+  | .mul a b => evalE L nat env a * evalE L nat env b
+  | .div a b => evalE L nat env a / evalE L nat env b
+  | .abs a => max (evalE L nat env a) (-(evalE L nat env a))
+  | .min a b => min (evalE L nat env a) (evalE L nat env b)
+  | .max a b => max (evalE L nat env a) (evalE L nat env b)
+  | .acos a => L.acos (evalE L nat env a)
+  | .sqrt a => L.sqrt (evalE L nat env a)
+  | .atan2 y x => L.atan2 (evalE L nat env y) (evalE L nat env x)
+  | .deg a => evalE L nat env a * (nat 180 / L.pi)
+  | .iteLt a b t e => if evalE L nat env a < evalE L nat env b then evalE L nat env t else evalE L nat env e
+  | .iteEq a b t e => if evalE L nat env a == evalE L nat env b then evalE L nat env t else evalE L nat env e
+
+/-- `angular_distance(...)[0]` / `[1]` of one pair through a regenerated expression in the variable `dot` -/
+def angDistE (e : E) (L : Libm α) (nat : Nat → α) (p q : Q4 α) : α := evalE L nat (fun _ => qdot p q) e
+
+/-- the row-level variables of `normals_to_euler_angles`: components of the NORMALISED normal -/
+def n2eEnv (u : V3 α) : String → α
+  | "ux" => u.x
+  | "uy" => u.y
+  | _ => u.z
+
+/-- how a batch of vectors is normalised, read off the `np.linalg.norm` call of the source: `"row"` = every row by its own
+norm (`axis=1`), `"all"` = by the Frobenius norm of the whole batch (no axis: defect D06), anything else = left as it is -/
+def normaliseBy [OfNat α 0] (mode : String) (L : Libm α) (pts : List (V3 α)) : List (V3 α) :=
+  if mode == "row" then normalsRowwise L pts else if mode == "all" then normalsAsIs L pts else pts
+
+/-- `normals_to_euler_angles` on a batch: normalisation mode and both angle formulas are the regenerated ones -/
+def n2eBatchE [OfNat α 0] (eTheta ePsi : E) (mode : String) (L : Libm α) (nat : Nat → α) (ns : List (V3 α)) : List (α × α) :=
+  (normaliseBy mode L ns).map fun u => (evalE L nat (n2eEnv u) eTheta, evalE L nat (n2eEnv u) ePsi)
+
+/-- which conversion `angular_distance` / `cone_inplane_distance` apply to an argument of the given Python type
+(table regenerated from the `isinstance` dispatch; `"*"` is the `else` branch) -/
+def inputConversion (table : List (String × String)) (pyType : String) : Option String :=
+  match table.find? (fun e => e.1 == pyType) with
+  | some e => some e.2
+  | none => (table.find? (fun e => e.1 == "*")).map (·.2)
+end expr
+
 /-! ### verified checker for the metric clauses, run on the implementation's numbers at `Rat` -/
 section check
 variable [Add α] [Sub α] [Neg α] [LE α] [DecidableLE α] [OfNat α 0] [OfNat α 180]
